@@ -172,8 +172,17 @@ def run_property(prop, tier="quick", seed=0, only=None):
         else:
             failed.append((vc, c, r, ident, occ[key]))
     # vacuity: each exit point / loop body must be reachable on some path
+    dead_ok = {}
+    for c in prop.contracts:
+        for label, snippet in c.expected_dead:
+            dead_ok.setdefault((c.key.split("[")[0], label), []).append((c.file, snippet))
     for (func, label, line), verdicts in canary_groups.items():
         rep.canary_groups += 1
+        if all(v == "proved" for v in verdicts) and any(
+                _line_matches(f, line, snip) for f, snip in dead_ok.get((func, label), [])):
+            rep.assumptions.add(f"{func}: '{label}' at line {line} is unreachable under the contract's precondition (declared)")
+            rep.canary_refuted += 1
+            continue
         if all(v == "proved" for v in verdicts):
             rep.errors.append(f"{func}: vacuity - every path reaching '{label}' (line {line}) has contradictory "
                               f"hypotheses (canary proved on all {len(verdicts)} paths)")
@@ -214,6 +223,16 @@ def run_property(prop, tier="quick", seed=0, only=None):
         run_standin(rep, prop, si, open_known, tier, seed)
     # known findings that did not show up any more
     return finish(rep, prop, known)
+
+
+def _line_matches(relpath, line, snippet):
+    try:
+        _, text = E.load_module_ast(relpath)
+        lines = text.splitlines()
+        window = " ".join(lines[max(0, line - 3): line + 3])
+        return snippet in window
+    except Exception:
+        return False
 
 
 def handle_failed(rep, prop, vc, c, r, ident, open_known, tier, seed):
@@ -329,7 +348,8 @@ def run_standin(rep, prop, si, open_known, tier, seed):
                 reported.add(kf["id"])
                 rep.known_hits.append((kf, f"stand-in {si.name}"))
             continue
-        key = tuple(o.failed)
+        import re as _re
+        key = _re.sub(r"\d+", "#", o.failed[0])
         if key in reported:
             continue
         reported.add(key)
